@@ -7,7 +7,7 @@ CONSTANTS
   Positions = {0,1}
   Samples = {"s1", "s2"}
   GTSet = "full"
-  ConfigSet = "all"
+  ConfigSet = "allph"
   MaxRuns = 1
   MaxOps = 1
   Variant = "design"
